@@ -636,7 +636,23 @@ fn main() {
                 if m.kind != r.kind {
                     e.1 += 1;
                     push(i as i64, &m.label, "class", &format!("{:?}", m.kind), &format!("{:?} {}", r.kind, if r.kind == SegKind::Err { r.msg.clone() } else { r.toks.clone() }));
-                } else if m.kind != SegKind::Err && m.toks != r.toks {
+                } else if m.kind == SegKind::Err {
+                    // C05: the error is reported *for the offending trait*: a message of the two documented misuse
+                    // families names the trait of the entry it replaces (the wording itself is not compared)
+                    if let Some(tr) = m.label.split(':').nth(1) {
+                        let tr = tr.split('#').next().unwrap_or("");
+                        let names_other = |pat_pre: &str, pat_post: &str| -> bool {
+                            ["Ord", "PartialOrd", "Eq", "PartialEq", "Hash"].iter().any(|t| *t != tr && r.msg.contains(&format!("{pat_pre}{t}{pat_post}")))
+                                && !r.msg.contains(&format!("{pat_pre}{tr}{pat_post}"))
+                        };
+                        if (r.msg.contains("the default implementation of") && names_other("the default implementation of `", "`"))
+                            || (r.msg.starts_with("When `#[derive_ex(") && names_other("When `#[derive_ex(", ")]`"))
+                        {
+                            e.1 += 1;
+                            push(i as i64, &m.label, "errtrait", tr, &r.msg);
+                        }
+                    }
+                } else if m.toks != r.toks {
                     e.1 += 1;
                     let (at, a, b) = first_diff(&m.toks, &r.toks);
                     // does the impl header (generics, trait, self type, where-clause) differ, or only the body?
